@@ -791,6 +791,7 @@ def run_execution(case: dict, *, max_invocations: int | None = None, hooks: dict
             if isinstance(chooser, D.LinePreempt):
                 sched.on_yield = chooser.on_yield
             sched.line_mode = bool(line_mods)
+            sched.line_files = {m.__file__ for m in line_mods}
             sched.capture_dump = bool(case.get("capture_dump"))
             interp = Interp(case, run, backend, world)
             interp.sched = sched
